@@ -27,6 +27,11 @@ def build_pool():
     # enums
     eu8, ei16, eu32, ei64, eplain = Enum(1, False), Enum(2, True), Enum(4, False), Enum(8, True), Enum(4, True, False)
     P += [eu8, ei16, eu32, ei64, eplain]
+    # enumerations over plain char and bool are encoded as char / bool (U8 class for 128..255; TRUE / FALSE only)
+    echar, ebool = EnumOver('char'), EnumOver('bool')
+    # (as scalars, tuple / optional / pair members: their schema is that of char / bool, which is exact everywhere except
+    # as the element of a sequence, where an enumeration is not an "integral type" and the packed form does not apply)
+    P += [echar, ebool, Tup(echar, ebool, eu8), Opt(echar), Pair(ebool, echar)]
     err8, erri = ErrEnum(1, False), ErrEnum(4, True)
     # strings
     P += [s8, s16, s32, ws]
